@@ -72,6 +72,9 @@ def setup_tree(root: Path):
     (root / "f6").write_text("#include 'x6'\n#include 'y6'\nm6  1;\n")
     (root / "x6").write_text("#include 'y6'\nx6  2;\n")
     (root / "y6").write_text("y6  3; // comment in y6\n")
+    # a JSON dict with a numbered include key (as the library writes them) included from a native dict
+    (root / "f10").write_text("// c10\n#include 'j10.json'\nm10  1;\n")
+    (root / "j10.json").write_text('{"#include000003": "x5", "#include000001": "y6", "k10": 1}')
     # a dangling include name (no such file next to f9) that exists under another working directory
     (root / "f9").write_text("#include 'ghost9'\n#include 'sub/ghost9'\nm9  1;\n")
     (root / "other" / "ghost9").write_text("p9  42; // belongs to another case\n")
@@ -127,6 +130,11 @@ def do_op(root: Path, op: str, spelling: str, out_tag: str):
         n = op[-1]
         dictIO.DictParser.parse(P(f"f{n}.xml"), output="xml")
         return ("bytes", (root / f"parsed.f{n}.xml").read_bytes())
+    if op == "read10":
+        return ("data", canon(dictIO.DictReader.read(P("f10"))))
+    if op == "parse10":
+        dictIO.DictParser.parse(P("f10"))
+        return ("bytes", (root / "parsed.f10").read_bytes())
     if op == "read9":
         return ("data", canon(dictIO.DictReader.read(P("f9"))))
     if op == "parse9":
@@ -193,10 +201,10 @@ def do_op(root: Path, op: str, spelling: str, out_tag: str):
 
 
 PREFIX_OPS = ["read1", "read2", "read3", "write", "parse", "dumpload", "reset", "read1o", "parsex7", "parsex8"]
-OBSERVED = ["wfw", "read9", "parse9", "rwr", "parsex7", "parsex8", "read1", "read1o", "read1n", "read2", "read3", "read4", "read5", "read6", "parse6", "write", "writeo", "parse", "parseo", "parsej", "parse4", "dumpload", "writeback", "loaddump"]
+OBSERVED = ["read10", "parse10", "wfw", "read9", "parse9", "rwr", "parsex7", "parsex8", "read1", "read1o", "read1n", "read2", "read3", "read4", "read5", "read6", "parse6", "write", "writeo", "parse", "parseo", "parsej", "parse4", "dumpload", "writeback", "loaddump"]
 CWDS = [".", "sub", "sub/deep", "other"]
 # every offset of the wrap inside one read of f1 (about 14 placeholders): each placeholder gets id 0 under one of them
-COUNTERS = [-1, 5] + list(range(999984, 1000000))
+COUNTERS = [-1, 5] + list(range(999984, 1000000)) + [0, 1, 2, 3]
 
 
 def run_scenario(case: dict):
